@@ -476,7 +476,7 @@ def judge(ctx, where, labels, res, exc, sigbase, reproduce):
     ctx.bump("outcome-returned")
     p = B.value_problem(res)
     ctx.check("api.result-wellformed", p is None, key=(where[0], where[1], (p or "").split(" ")[0]), member=".".join(where), args=list(labels),
-              problem=p, result=repr(res)[:200], call=reproduce)
+              problem=p, result=B.safe_repr(res), call=reproduce)
     ctx.note(sigbase + (where[1], labels, "ok"), klass=None)
 
 
